@@ -137,3 +137,6 @@ Print Assumptions C16_gt_roundtrip.
 Check C16_premises_satisfiable :
   pairing_laws toy.
 Print Assumptions C16_premises_satisfiable.
+Check C16_premises_satisfiable_at_group_order :
+  pairing_laws toy_bls /\ order toy_bls = group_order_bytes_value.
+Print Assumptions C16_premises_satisfiable_at_group_order.
